@@ -29,6 +29,7 @@ type World struct {
 	invs      map[string]*InvDef
 	chanInvs  map[string]*InvDef // key: pkgpath.Struct.field
 	guards    map[string]*GuardDef // key: pkgpath.Struct.field
+	provedBy map[string][]string // function key -> other claims that check it
 	claimed   map[string]bool    // function keys of the claim being checked
 	consts    map[string]string
 	ghosts    map[string]*GhostDecl
